@@ -69,6 +69,17 @@ static Case cases[] = {
     {"json_partial_object_in_array", [] { return js_is("[{\"a\":1 x,2]", nullptr); }},
     {"json_partial_array_in_array", [] { return js_is("[[1 x,2]", nullptr); }},
     {"json_partial_array_in_object", [] { return js_is("{\"k\":[1 x,\"b\":2}", nullptr); }},
+    // ---- C06 / C20
+    {"json_surrogate_pair_high_plane", [] {
+         // \uD900\uDC00 is U+50000 = F1 90 80 80 in UTF-8
+         Value<char> v = JSON::Parse("[\"\\uD900\\uDC00\"]");
+         const String<char> *s = v.GetValue(0) ? v.GetValue(0)->GetString() : nullptr;
+         if (s == nullptr) return printf("no string\n"), 1;
+         const unsigned char want[] = {0xF1, 0x90, 0x80, 0x80};
+         if (s->Length() != 4 || memcmp(s->First(), want, 4) != 0)
+             return printf("expected F1 90 80 80, got %u units starting %02X\n", s->Length(), (unsigned char)s->First()[0]), 1;
+         return 0;
+     }},
     // ---- C01 template scanner / renderer
     {"tmpl_operator_lookahead", [] {
          char *p = exact("1|", 2);
